@@ -386,3 +386,107 @@ package table
 //@   ensures [C14.delete.cas] err == nil ==> m.store.rHas[tkey(name)] && m.store.nwk[tkey(name)] == old(m.store.nwk[tkey(name)]) + 1 && m.store.wDel[tkey(name)] && m.store.wVer[tkey(name)] == m.store.rPair[tkey(name)].Ver
 //@   ensures [C14.delete.fail] err != nil ==> m.store.nwk[tkey(name)] == old(m.store.nwk[tkey(name)])
 //@   modifies m.store.rHas, m.store.rPair, m.store.nwk, m.store.wVal, m.store.wVer, m.store.wDel, m.store.wPrevHas, m.store.wPrev
+
+// ---------------------------------------------------------------- reconciliation (C14)
+
+//@ import registry "github.com/lni/dragonboat/v4/internal/registry"
+
+// shard id is catalogued: some table record carries it as its cluster id or its recovery id
+//@ pure func catalogued(tables gomap[string]Table, id uint64) bool = id != 0 && exists n string :: has(tables, n) && (tables[n].ClusterID == id || tables[n].RecoverID == id)
+// shard id is running on the node host
+//@ pure func running(info []registry.ShardInfo, id uint64) bool = exists i int :: 0 <= i && i < len(info) && info[i].ShardID == id
+
+// diffTables: to start = exactly the catalogued table shards (id > 10000) that are not running, each
+// mapped to a catalogue record carrying that id; to stop = exactly the running table shards that
+// are not catalogued.
+//@ func diffTables
+//@   results toStart, toStop
+//@   ensures [C14.diff.start] forall id uint64 :: has(toStart, id) <==> (id > 10000 && catalogued(tables, id) && !running(raftInfo, id))
+//@   ensures [C14.diff.start.record] forall id uint64 :: has(toStart, id) ==> exists n string :: has(tables, n) && tables[n] == toStart[id] && (tables[n].ClusterID == id || tables[n].RecoverID == id)
+//@   ensures [C14.diff.stop.sound] forall j int :: 0 <= j && j < len(toStop) ==> toStop[j] > 10000 && running(raftInfo, toStop[j]) && !catalogued(tables, toStop[j])
+//@   ensures [C14.diff.stop.complete] forall id uint64 :: id > 10000 && running(raftInfo, id) && !catalogued(tables, id) ==> exists j int :: 0 <= j && j < len(toStop) && toStop[j] == id
+//@   modifies nothing
+//@   loop 0 invariant tableIDs != nil && fresh(tableIDs)
+//@   loop 0 invariant forall n string :: rangeSeen(0, n) ==> has(tables, n) && (tables[n].ClusterID != 0 ==> has(tableIDs, tables[n].ClusterID)) && (tables[n].RecoverID != 0 ==> has(tableIDs, tables[n].RecoverID))
+//@   loop 0 invariant forall id uint64 :: has(tableIDs, id) ==> id != 0 && exists n string :: has(tables, n) && tables[n] == tableIDs[id] && (tables[n].ClusterID == id || tables[n].RecoverID == id)
+//@   loop 1 invariant tableIDs != nil && raftTableIDs != nil && fresh(raftTableIDs) && raftTableIDs != tableIDs && -1 <= rangeindex && rangeindex < len(raftInfo)
+//@   loop 1 invariant forall id uint64 :: has(tableIDs, id) <==> catalogued(tables, id)
+//@   loop 1 invariant forall id uint64 :: has(tableIDs, id) ==> exists n string :: has(tables, n) && tables[n] == tableIDs[id] && (tables[n].ClusterID == id || tables[n].RecoverID == id)
+//@   loop 1 invariant forall i int :: 0 <= i && i <= rangeindex ==> has(raftTableIDs, raftInfo[i].ShardID)
+//@   loop 1 invariant forall id uint64 :: has(raftTableIDs, id) ==> exists i int :: 0 <= i && i <= rangeindex && raftInfo[i].ShardID == id
+//@   loop 2 invariant tableIDs != nil && raftTableIDs != nil && (toStart == nil || (fresh(toStart) && toStart != tableIDs && toStart != raftTableIDs))
+//@   loop 2 invariant forall id uint64 :: has(tableIDs, id) <==> catalogued(tables, id)
+//@   loop 2 invariant forall id uint64 :: has(tableIDs, id) ==> exists n string :: has(tables, n) && tables[n] == tableIDs[id] && (tables[n].ClusterID == id || tables[n].RecoverID == id)
+//@   loop 2 invariant forall id uint64 :: has(raftTableIDs, id) <==> running(raftInfo, id)
+//@   loop 2 invariant forall id uint64 :: rangeSeen(1, id) ==> has(tableIDs, id)
+//@   loop 2 invariant forall id uint64 :: has(toStart, id) <==> (rangeSeen(1, id) && !has(raftTableIDs, id) && id > 10000)
+//@   loop 2 invariant forall id uint64 :: has(toStart, id) ==> toStart[id] == tableIDs[id]
+//@   loop 3 invariant tableIDs != nil && raftTableIDs != nil && (isNilSlice(toStop) || fresh(toStop))
+//@   loop 3 invariant forall id uint64 :: has(tableIDs, id) <==> catalogued(tables, id)
+//@   loop 3 invariant forall id uint64 :: has(raftTableIDs, id) <==> running(raftInfo, id)
+//@   loop 3 invariant forall id uint64 :: has(toStart, id) <==> (id > 10000 && catalogued(tables, id) && !running(raftInfo, id))
+//@   loop 3 invariant forall id uint64 :: has(toStart, id) ==> exists n string :: has(tables, n) && tables[n] == toStart[id] && (tables[n].ClusterID == id || tables[n].RecoverID == id)
+//@   loop 3 invariant forall id uint64 :: rangeSeen(2, id) ==> has(raftTableIDs, id)
+//@   loop 3 invariant forall j int :: 0 <= j && j < len(toStop) ==> rangeSeen(2, toStop[j]) && !has(tableIDs, toStop[j]) && toStop[j] > 10000
+//@   loop 3 invariant forall id uint64 :: rangeSeen(2, id) && !has(tableIDs, id) && id > 10000 ==> exists j int :: 0 <= j && j < len(toStop) && toStop[j] == id
+
+// getTables: every entry of the listing is keyed by its own name; the map is new. (Which records the
+// pattern "/tables/*" selects is the store's GetAll, not under contract.) The map handed out last is
+// remembered in a ghost field so that callers' contracts can speak about it.
+//@ ghostfield table.Manager.lastTables gomap[string]Table
+//@ func (*Manager).getTables
+//@   params m
+//@   results tables, err
+//@   requires m != nil && m.store != nil
+//@   ensures m.lastTables == tables && (err == nil ==> tables != nil && fresh(tables)) && (err != nil ==> tables == nil)
+//@   ensures [C14.list.names] err == nil ==> forall n string :: has(tables, n) ==> tables[n].Name == n
+//@   ghostset m.lastTables = tables
+//@   modifies m.lastTables
+//@   loop 0 invariant tables != nil && fresh(tables) && -1 <= rangeindex && rangeindex < len(all)
+//@   loop 0 invariant forall n string :: has(tables, n) ==> tables[n].Name == n
+
+// GetTableByID: found exactly if some listed table carries the id as its cluster id, and then it is
+// such a table that is returned.
+//@ func (*Manager).GetTableByID
+//@   params m, id
+//@   results at, err
+//@   requires m != nil && m.store != nil && m.nh != nil
+//@   ensures [C14.byid.found] err == serrors.ErrTableNotFound ==> forall n string :: has(m.lastTables, n) ==> m.lastTables[n].ClusterID != id
+//@   ensures [C14.byid.sound] err == nil ==> exists n string :: has(m.lastTables, n) && m.lastTables[n].ClusterID == id && at.Table == m.lastTables[n]
+//@   modifies m.lastTables
+//@   loop 0 invariant tables == m.lastTables && tables != nil && m.nh != nil
+//@   loop 0 invariant forall n string :: rangeSeen(0, n) ==> has(tables, n) && tables[n].ClusterID != id
+
+//@ iface table.raftHandler.GetNoOPSession
+//@   assumed
+//@   modifies nothing
+
+//@ func (*Manager).startTable
+//@   assumed
+//@   requires m != nil
+//@   modifies nothing
+//@ func (*Manager).stopTable
+//@   assumed
+//@   requires m != nil
+//@   modifies m.store.rHas, m.store.rPair, m.store.nwk, m.store.wVal, m.store.wVer, m.store.wDel, m.store.wPrevHas, m.store.wPrev, world.clock
+
+//@ import dragonboat "github.com/lni/dragonboat/v4"
+//@ func dragonboat.(*NodeHost).GetNodeHostInfo
+//@   assumed
+//@   modifies nothing
+
+//@ func (*Manager).reconcile$1
+//@   results tabs, nhi, err
+//@   requires *m != nil && (*m).store != nil && (*m).nh != nil
+//@   ensures err == nil ==> tabs != nil && nhi != nil
+//@   modifies (*m).lastTables
+
+// reconcile starts only shards diffTables asked to start, each under the name of the record
+// diffTables mapped it to, and stops only shards diffTables asked to stop.
+//@ func (*Manager).reconcile
+//@   requires m != nil && m.store != nil && m.nh != nil
+//@   before (*Manager).startTable assert [C14.reconcile.start] has(start, id) && start[id].Name == name
+//@   before (*Manager).stopTable assert [C14.reconcile.stop] exists j int :: 0 <= j && j < len(stop) && stop[j] == clusterID
+//@   modifies m.lastTables, m.store.rHas, m.store.rPair, m.store.nwk, m.store.wVal, m.store.wVer, m.store.wDel, m.store.wPrevHas, m.store.wPrev, world.clock
+//@   loop 0 invariant m != nil
+//@   loop 1 invariant -1 <= rangeindex && rangeindex < len(stop) && m != nil
